@@ -3,9 +3,13 @@
 package handler
 
 import (
+	"crypto/rand"
+	"crypto/rsa"
 	"crypto/sha256"
+	"crypto/x509"
 	"encoding/base64"
 	"encoding/json"
+	"encoding/pem"
 	"fmt"
 	"github.com/golang-jwt/jwt/v4"
 	"io"
@@ -162,6 +166,8 @@ type verifSigCase struct {
 	SigRaw     *string  `json:"sigraw"` // use this signature text instead of signing
 	B64Cands   []string `json:"b64cands"`
 	SecretCand []string `json:"secretcands"`
+	BodyGen    int      `json:"bodygen"` // >0: the body (plaintext) is this many generated bytes
+	BodyNl     int      `json:"bodynl"`  // line feeds appended to the wire body
 	Framing    string   `json:"framing"` // "" | declared | unknown | chunked | server
 }
 
@@ -172,6 +178,8 @@ var (
 	verifRsaOnce sync.Once
 	verifDec     codec.RsaDecryptor
 	verifEnc     codec.RsaEncryptor
+	verifPriv    *rsa.PrivateKey
+	verifPub     *rsa.PublicKey
 	verifRsaErr  error
 )
 
@@ -189,9 +197,43 @@ func verifRsa() error {
 			verifRsaErr = err
 			return
 		}
-		verifEnc, verifRsaErr = codec.NewRsaEncryptor(pubKey)
+		if verifEnc, verifRsaErr = codec.NewRsaEncryptor(pubKey); verifRsaErr != nil {
+			return
+		}
+		pb, _ := pem.Decode(priKey)
+		if verifPriv, verifRsaErr = x509.ParsePKCS1PrivateKey(pb.Bytes); verifRsaErr != nil {
+			return
+		}
+		verifPub = &verifPriv.PublicKey
 	})
 	return verifRsaErr
+}
+
+// verifBig replaces a large string by a short injective surrogate (length and SHA-256).
+func verifBig(s string) string {
+	if len(s) <= 4096 {
+		return s
+	}
+	return "<<big:" + strconv.Itoa(len(s)) + ":" + verifSha(s) + ">>"
+}
+
+// verifEncryptChunks is the client side of the RSA envelope: the plaintext is cut at k-11 bytes and every
+// piece is encrypted on its own with PKCS#1 v1.5 (crypto/rsa directly), the ciphertext blocks are appended.
+func verifEncryptChunks(plain []byte) ([]byte, error) {
+	limit := verifPub.Size() - 11
+	var out []byte
+	for i := 0; i < len(plain) || i == 0; i += limit {
+		j := i + limit
+		if j > len(plain) {
+			j = len(plain)
+		}
+		b, err := rsa.EncryptPKCS1v15(rand.Reader, verifPub, plain[i:j])
+		if err != nil {
+			return nil, err
+		}
+		out = append(out, b...)
+	}
+	return out, nil
 }
 
 func verifSha(body string) string { return fmt.Sprintf("%x", sha256.Sum256([]byte(body))) }
@@ -224,7 +266,7 @@ func verifSig(raw json.RawMessage) any {
 	}
 	sub := func(s string) string { return strings.ReplaceAll(s, "{TS}", ts) }
 	plain := sub(c.Plain)
-	ct, err := verifEnc.Encrypt([]byte(plain))
+	ct, err := verifEncryptChunks([]byte(plain))
 	if err != nil {
 		return map[string]any{"error": "encrypt: " + err.Error()}
 	}
@@ -233,6 +275,10 @@ func verifSig(raw json.RawMessage) any {
 		ct[len(ct)-1] ^= 0x01
 	}
 	secret := base64.StdEncoding.EncodeToString(ct)
+	if c.BodyGen > 0 {
+		// deterministic plaintext of the requested length (large bodies are not shipped in the case)
+		c.Body = strings.Repeat("0123456789abcdef", c.BodyGen/16+1)[:c.BodyGen]
+	}
 	sentBody := c.Body
 	if c.EncBody {
 		k, _ := base64.StdEncoding.DecodeString(c.KeyB64)
@@ -240,6 +286,7 @@ func verifSig(raw json.RawMessage) any {
 			sentBody = base64.StdEncoding.EncodeToString(e)
 		}
 	}
+	sentBody += strings.Repeat("\n", c.BodyNl) // line feeds are ignored by the base64 decoder
 	if c.SignBody == "{SENT}" {
 		c.SignBody = sentBody
 	}
@@ -360,26 +407,37 @@ func verifSig(raw json.RawMessage) any {
 		effPath, effQuery = xpath, xquery
 	}
 	sentContent := strings.Join([]string{ts, r2.Method, effPath, effQuery, verifSha(sentBody)}, "\n")
-	// RSA: every candidate secret text under the (single) test key
+	// RSA: every k-byte block of every candidate secret, decrypted with crypto/rsa directly (reference)
 	type rsaRow struct {
-		Secret string   `json:"secret"`
-		Res    verifOpt `json:"res"`
+		Block string   `json:"block"` // base64 of the raw block
+		Res   verifOpt `json:"res"`
 	}
 	rsaTab := []rsaRow{}
-	for _, s := range append([]string{secret}, c.SecretCand...) {
-		pt, err := verifDec.DecryptBase64(s)
-		row := rsaRow{Secret: s}
-		if err == nil {
-			row.Res = verifOpt{Ok: true, Val: base64.StdEncoding.EncodeToString(pt)}
+	rsaK := verifPriv.Size()
+	secretCands := append([]string{secret}, c.SecretCand...)
+	for _, s := range secretCands {
+		raw, err := base64.StdEncoding.DecodeString(s)
+		if err != nil {
+			continue
 		}
-		rsaTab = append(rsaTab, row)
+		for i := 0; i < len(raw); i += rsaK {
+			j := i + rsaK
+			if j > len(raw) {
+				j = len(raw)
+			}
+			row := rsaRow{Block: base64.StdEncoding.EncodeToString(raw[i:j])}
+			if pt, err := rsa.DecryptPKCS1v15(rand.Reader, verifPriv, raw[i:j]); err == nil {
+				row.Res = verifOpt{Ok: true, Val: base64.StdEncoding.EncodeToString(pt)}
+			}
+			rsaTab = append(rsaTab, row)
+		}
 	}
 	type b64Row struct {
 		Text string   `json:"text"`
 		Res  verifOpt `json:"res"`
 	}
 	b64Tab := []b64Row{}
-	for _, s := range append([]string{c.KeyB64, c.SignKey}, c.B64Cands...) {
+	for _, s := range append(append([]string{c.KeyB64, c.SignKey}, c.B64Cands...), secretCands...) {
 		b64Tab = append(b64Tab, b64Row{Text: s, Res: verifB64(s)})
 	}
 	type macRow struct {
@@ -389,7 +447,7 @@ func verifSig(raw json.RawMessage) any {
 	}
 	macTab := []macRow{}
 	keys := [][]byte{}
-	for _, row := range b64Tab {
+	for _, row := range b64Tab[:2+len(c.B64Cands)] {
 		if row.Res.Ok {
 			k, _ := base64.StdEncoding.DecodeString(row.Res.Val)
 			keys = append(keys, k)
@@ -404,25 +462,39 @@ func verifSig(raw json.RawMessage) any {
 		Body string `json:"body"`
 		Hex  string `json:"hex"`
 	}
-	shaTab := []shaRow{{sentBody, verifSha(sentBody)}, {c.SignBody, verifSha(c.SignBody)}}
-	// what does cryptohandler.decryptBody do with this body under the announced key: ok / err / panic
-	decBody := "err"
-	if k, err := base64.StdEncoding.DecodeString(c.KeyB64); err == nil && seen.clen > 0 {
-		r3 := httptest.NewRequest(c.Method, c.Target, strings.NewReader(sentBody))
-		ok := false
-		if p, _ := verifdrv.Catch(func() { ok = decryptBody(k, r3) == nil }); p {
+	shaTab := []shaRow{{verifBig(sentBody), verifSha(sentBody)}, {verifBig(c.SignBody), verifSha(c.SignBody)}}
+	// reference decryption of the body bytes under the announced key (base64 + AES-ECB), whatever the
+	// declared length: ok / err / panic
+	decBody, refPlain := "err", ""
+	if k, err := base64.StdEncoding.DecodeString(c.KeyB64); err == nil {
+		var out []byte
+		var derr error
+		p, _ := verifdrv.Catch(func() {
+			var raw []byte
+			if raw, derr = base64.StdEncoding.DecodeString(sentBody); derr == nil {
+				out, derr = codec.EcbDecrypt(k, raw)
+			}
+		})
+		if p {
 			decBody = "panic"
-		} else if ok {
-			decBody = "ok"
+		} else if derr == nil {
+			decBody, refPlain = "ok", string(out)
 		}
+	}
+	// which body did the handler read: 0 the body as sent, 1 its reference decryption, 2 anything else
+	seenKind := 2
+	if seenBody == sentBody {
+		seenKind = 0
+	} else if decBody == "ok" && seenBody == refPlain {
+		seenKind = 1
 	}
 	return map[string]any{
 		"now0": now0, "now1": now1, "ts": ts, "header": header, "secret": secret, "sig": sig, "plain": plain,
 		"method": r2.Method, "path": r2.URL.Path, "query": r2.URL.RawQuery, "clen": r2.ContentLength,
-		"xok": xok, "xpath": xpath, "xquery": xquery, "sentbody": sentBody,
-		"rsa": rsaTab, "b64": b64Tab, "mac": macTab, "sha": shaTab, "decbody": decBody, "panic": panicked, "panicval": panicVal, "chunked": seen.chunked,
+		"xok": xok, "xpath": xpath, "xquery": xquery, "sentbody": verifBig(sentBody), "sentlen": len(sentBody),
+		"rsa": rsaTab, "rsak": rsaK, "b64": b64Tab, "mac": macTab, "sha": shaTab, "decbody": decBody, "panic": panicked, "panicval": panicVal, "chunked": seen.chunked,
 		"status": status, "ran": ran, "sighdr": sigHdr,
-		"seenbody": seenBody, "sentcontent": sentContent, "signcontent": signContent,
+		"seenbody": verifBig(seenBody), "seen": seenKind, "plainok": !c.EncBody || refPlain == c.Body, "sentcontent": sentContent, "signcontent": signContent,
 	}
 }
 
